@@ -49,3 +49,9 @@ Inductive aform := FN | FN1 | FCallOpMinus1 | FUnknown.   (* sizeof...(Arguments
 Record arity_entry := { ar_kind : string; ar_quals : string; ar_formula : aform }.
 Definition aform_eqb (a b : aform) : bool :=
   match a, b with FN, FN | FN1, FN1 | FCallOpMinus1, FCallOpMinus1 => true | _, _ => false end.
+
+(* std::move / std::forward applied to a reference parameter of a library function *)
+Inductive pkind := PForwarding | PLvalueRef | PConstRef | PRvalueRef.
+Inductive fhow := HMove | HForward.
+Inductive fsink := SNone | SConstRef | SByValue | SRvalueRef | SUnknown.
+Record fwd_site := { fs_fn : string; fs_param : string; fs_pkind : pkind; fs_how : fhow; fs_sink : fsink }.
